@@ -158,8 +158,19 @@ func classesFor(r *pbt.Run, tx *wire.Tx, q req, nsep int) {
 
 func TestLegacyDigest(t *testing.T) {
 	pbt.Check(t, pbt.Cfg{Name: "legacy_digest", Quick: 200000, Thorough: 5000000}, func(r *pbt.Run) {
-		tx := genTx(r.T, true)
-		q, nsep := genLegacyReq(r.T, tx)
+		var tx *wire.Tx
+		var q req
+		var nsep int
+		if rapid.IntRange(0, 399).Draw(r.T, "boundary") == 0 {
+			var label string
+			tx, _, q, label = genBoundary(r.T, "legacy")
+			nsep = bytes.Count(unhx(q.Code), []byte{0xab})
+			r.Class("compactsize_boundary")
+			r.Class(label)
+		} else {
+			tx = genTx(r.T, true)
+			q, nsep = genLegacyReq(r.T, tx)
+		}
 		c := digestCase{Tx: hx(tx.Serialize(true)), Req: q}
 		r.Case(c)
 		classesFor(r, tx, q, nsep)
@@ -171,8 +182,19 @@ func TestLegacyDigest(t *testing.T) {
 
 func TestBIP143Digest(t *testing.T) {
 	pbt.Check(t, pbt.Cfg{Name: "bip143_digest", Quick: 200000, Thorough: 5000000}, func(r *pbt.Run) {
-		tx := genTx(r.T, true)
-		q, nsep := genBIP143Req(r.T, tx)
+		var tx *wire.Tx
+		var q req
+		var nsep int
+		if rapid.IntRange(0, 399).Draw(r.T, "boundary") == 0 {
+			var label string
+			tx, _, q, label = genBoundary(r.T, "bip143")
+			nsep = bytes.Count(unhx(q.Code), []byte{0xab})
+			r.Class("compactsize_boundary")
+			r.Class(label)
+		} else {
+			tx = genTx(r.T, true)
+			q, nsep = genBIP143Req(r.T, tx)
+		}
 		c := digestCase{Tx: hx(tx.Serialize(true)), Req: q}
 		r.Case(c)
 		classesFor(r, tx, q, nsep)
@@ -184,9 +206,21 @@ func TestBIP143Digest(t *testing.T) {
 
 func TestBIP341Digest(t *testing.T) {
 	pbt.Check(t, pbt.Cfg{Name: "bip341_digest", Quick: 200000, Thorough: 5000000}, func(r *pbt.Run) {
-		tx := genTx(r.T, true)
-		q := genBIP341Req(r.T, tx)
-		c := digestCase{Tx: hx(tx.Serialize(true)), Spent: genSpent(r.T, len(tx.In)), Req: q}
+		var c digestCase
+		var tx *wire.Tx
+		var q req
+		if rapid.IntRange(0, 399).Draw(r.T, "boundary") == 0 {
+			var sp []spentOut
+			var label string
+			tx, sp, q, label = genBoundary(r.T, "bip341")
+			c = digestCase{Tx: hx(tx.Serialize(true)), Spent: sp, Req: q}
+			r.Class("compactsize_boundary")
+			r.Class(label)
+		} else {
+			tx = genTx(r.T, true)
+			q = genBIP341Req(r.T, tx)
+			c = digestCase{Tx: hx(tx.Serialize(true)), Spent: genSpent(r.T, len(tx.In)), Req: q}
+		}
 		r.Case(c)
 		classesFor(r, tx, q, 0)
 		if err := checkDigest(c); err != nil {
